@@ -71,6 +71,9 @@ type callSpec struct {
 	Extra    extraSpec `json:"extra"`
 	RespExtra extraSpec `json:"resp_extra"`
 	StartUs  int64  `json:"start_us,omitempty"`
+	WrapErr  bool   `json:"wrap_err,omitempty"`  // rpcerr handler returns its *rpc.Error wrapped by an outer layer (fmt.Errorf %w), as generated dispatchers do
+	CtxTrace bool   `json:"ctx_trace,omitempty"` // the caller's context carries a tracing context (a sub-request issued from inside a handler)
+	CtxExec  bool   `json:"ctx_exec,omitempty"`  // ... and/or an execution context
 	MutateReqExtra int `json:"mutate_req_extra,omitempty"` // handler changes hctx.RequestExtra before answering (as a proxy does): 1 clear all, 2 clear seeded bits, 3 set all bits
 }
 
@@ -192,6 +195,9 @@ func callsGen(r *rand.Rand, params map[string]any) callsScenario {
 		if r.IntN(4) == 0 {
 			c.MutateReqExtra = 1 + r.IntN(3)
 		}
+		c.WrapErr = r.IntN(2) == 0
+		c.CtxTrace = r.IntN(4) == 0
+		c.CtxExec = r.IntN(4) == 0
 		sc.Calls = append(sc.Calls, c)
 	}
 	if faulty {
@@ -607,7 +613,11 @@ func (r *callsRun) handler(si int) HandlerFunc {
 		}
 		switch cs.spec.Handler {
 		case "rpcerr":
-			return &Error{Code: cs.spec.ErrCode, Description: fmt.Sprintf("err-token-%016x", token)}
+			e := &Error{Code: cs.spec.ErrCode, Description: fmt.Sprintf("err-token-%016x", token)}
+			if cs.spec.WrapErr {
+				return fmt.Errorf("failed to handle call %d: %w", cs.idx, e)
+			}
+			return e
 		case "goerr":
 			return fmt.Errorf("plain-token-%016x", token)
 		case "panic":
@@ -847,17 +857,38 @@ func (r *callsRun) doCall(cs *callState) {
 	if sp.CustomTimeoutMs > 0 {
 		req.Extra.SetCustomTimeoutMs(sp.CustomTimeoutMs)
 	}
+	// documented client normalisation: for requests with an actor id, an execution / tracing context carried
+	// by the caller's context fills in the corresponding extra field if (and only if) the request did not set it
+	baseCtx := context.Background()
+	want := req.Extra
+	if sp.CtxExec {
+		ec := fmt.Sprintf("exec-ctx-%d", cs.idx)
+		baseCtx = WithExecutionContext(baseCtx, ec)
+		if sp.ActorID > 0 && !want.IsSetExecutionContext() {
+			want.SetExecutionContext(ec)
+		}
+	}
+	if sp.CtxTrace {
+		var tc TraceContext
+		tc.TraceId.Lo, tc.TraceId.Hi = int64(cs.token), int64(cs.idx)+7
+		tc.SetParentId(int64(cs.idx) + 1000)
+		tc.SetSourceId(fmt.Sprintf("frontend-%d", cs.idx))
+		baseCtx = WithTracingContext(baseCtx, tc)
+		if sp.ActorID > 0 && !want.IsSetTraceContext() {
+			want.SetTraceContext(tc)
+		}
+	}
 	r.mu.Lock()
-	cs.wantReqExtra = req.Extra.WriteTL1(nil)
-	cs.sentExtraFlags = req.Extra.Flags
+	cs.wantReqExtra = want.WriteTL1(nil)
+	cs.sentExtraFlags = want.Flags
 	cs.hadDeadline = sp.DeadlineUs > 0 || sp.CustomTimeoutMs > 0
 	if sp.DeadlineUs > 0 {
 		cs.sentExtraFlags |= 1 << 23
 	}
 	r.mu.Unlock()
-	ctx, cancel := context.WithCancel(context.Background())
+	ctx, cancel := context.WithCancel(baseCtx)
 	if sp.DeadlineUs > 0 {
-		ctx, cancel = context.WithTimeout(context.Background(), time.Duration(sp.DeadlineUs)*time.Microsecond)
+		ctx, cancel = context.WithTimeout(baseCtx, time.Duration(sp.DeadlineUs)*time.Microsecond)
 	}
 	r.mu.Lock()
 	cs.cancel = cancel
